@@ -19,11 +19,11 @@ import (
 type OblStat struct {
 	Label    string `json:"label"`
 	Kind     string `json:"kind"`
-	Checked  int    `json:"checked"`  // times reached
-	Trivial  int    `json:"trivial"`  // closed by constant folding
-	Unsat    int    `json:"unsat"`    // discharged by the solver
-	Sat      int    `json:"sat"`      // violated (candidate)
-	Unknown  int    `json:"unknown"`  // solver gave no answer
+	Checked  int    `json:"checked"` // times reached
+	Trivial  int    `json:"trivial"` // closed by constant folding
+	Unsat    int    `json:"unsat"`   // discharged by the solver
+	Sat      int    `json:"sat"`     // violated (candidate)
+	Unknown  int    `json:"unknown"` // solver gave no answer
 	MaxTerms int    `json:"max_terms"`
 }
 
@@ -42,28 +42,28 @@ type Candidate struct {
 type PathSample struct {
 	Params []int             `json:"params"`
 	Vector map[string]uint64 `json:"vector"`
-	Obs    []string          `json:"obs"`    // expected observation trace "label=value"
+	Obs    []string          `json:"obs"` // expected observation trace "label=value"
 	Covers []string          `json:"covers"`
 	Status string            `json:"status"`
 }
 
 type RunResult struct {
-	Obl         map[string]*OblStat
-	Covers      map[string]int
+	Obl          map[string]*OblStat
+	Covers       map[string]int
 	CoverWitness map[string]map[string]uint64
-	Paths       int
-	PathStatus  map[string]int
-	Candidates  []*Candidate
-	candSeen    map[string]int
-	Samples     []*PathSample
-	Unsupported map[string]int
-	Bounds      map[string]int
-	Steps       int
-	sampleEvery int
-	maxSamples  int
-	harness     *HarnessSpec
-	params      []int
-	distinctObl map[string]bool // distinct (label, obligation term, path condition) triples decided under a symbolic path condition
+	Paths        int
+	PathStatus   map[string]int
+	Candidates   []*Candidate
+	candSeen     map[string]int
+	Samples      []*PathSample
+	Unsupported  map[string]int
+	Bounds       map[string]int
+	Steps        int
+	sampleEvery  int
+	maxSamples   int
+	harness      *HarnessSpec
+	params       []int
+	distinctObl  map[string]bool // distinct (label, obligation term, path condition) triples decided under a symbolic path condition
 }
 
 func newRunResult() *RunResult {
@@ -205,6 +205,19 @@ func (r *RunResult) obligation(e *Engine, st *State, c *Term, label, kind string
 		return
 	}
 	res, m := e.modelFor(st, neg)
+	if res == Sat && m != nil && os.Getenv("VERIF_DEBUG_MODEL") != "" {
+		memo := map[int]uint64{}
+		bad := e.ts.Eval(neg, m, memo) == 0
+		for _, pcT := range st.pc {
+			if e.ts.Eval(pcT, m, memo) == 0 {
+				bad = true
+				fmt.Fprintf(os.Stderr, "MODEL-MISMATCH pc term false under solver model: %s\n", e.ts.Script([]*Term{pcT}, false))
+			}
+		}
+		if bad {
+			fmt.Fprintf(os.Stderr, "MODEL-MISMATCH at %s label %s model %v\nneg: %s\n", e.where(st), label, m, e.ts.Script([]*Term{neg}, false))
+		}
+	}
 	switch res {
 	case Unsat:
 		s.Unsat++
